@@ -241,3 +241,7 @@ def run(ctx):
         "the order in which one connection delivers events is the order in which the server emitted them (C10)",
         "histories are short (<= 5 operations per client, <= 5 clients): small-scope hypothesis",
     ]
+
+    # the directory's notifications under subscriber faults (DirFault.tla, design-notes/EXT-dirfault.md)
+    import ext_dirfault
+    ext_dirfault.run(ctx)
